@@ -340,6 +340,7 @@ def run_session(case, preempt=None):
                 client.disconnect()
             except Exception as e:   # noqa
                 out['disconnect_exc'] = e
+            out['local_done_mark'] = len(s.trace)
         for t in threads:
             t.join()
         peer_thread.join()
@@ -391,6 +392,17 @@ def check(ctx, case, preempt=None):
     if preempt:
         sub['preempt'] = {str(k): v for k, v in preempt.items()}
     lt = out.get('local_time')
+    if lt is not None and out.get('local_done_mark') is not None and not out['error']:
+        # a request queued WHILE disconnect() is running (after it began, before it returned) is not "issued after the
+        # disconnect": it is released by the shutdown like the ones waiting before, not left to its time-out
+        for i_, v_ in out['results'].items():
+            tid_ = next((t.ident for t in s.threads if t.name == f'T:caller{i_}'), None)
+            queued_ = next((n for n, (who, tag) in enumerate(s.trace) if who == tid_ and tag == 'q.put.done'), None)
+            if queued_ is not None and out['local_mark'] < queued_ < out['local_done_mark'] and v_[0] == 'exc' and v_[1] == 'TimeoutError' \
+                    and v_[5] - lt > 4.0 and not case['callers'][i_].get('bad'):
+                ctx.finding('request-queued-during-disconnect-left-to-its-time-out', sub,
+                            f'caller {i_} {case["callers"][i_]["key"]}: queued while disconnect() was running, TimeoutError {v_[5] - lt:.1f} s after the shutdown began')
+                return
     if lt is not None and (len(out['results']) < len(case['callers']) or any(v[4] >= lt for v in out['results'].values())):
         # a request issued after the user's disconnect() re-opens the connection (documented: "make sure we are connected"):
         # this is a new session, not a caller waiting at shutdown - outside the statement
@@ -587,12 +599,15 @@ SYSTEMATIC = [
      'plan': [{'do': 'error', 'k': 0}, {'do': 'update', 'k': 0}, {'do': 'reply', 'k': 0}, {'do': 'reply', 'k': 0}]},
     {'callers': [{'key': ['read', 'm:value'], 'delay': 0}, {'key': ['change', 'm:target'], 'delay': 0.5}],
      'plan': [{'do': 'reply', 'k': 0}, {'do': 'drop', 'how': 'close'}]},
+    # the user shuts down while a caller issues its request
+    {'callers': [{'key': ['read', 'm:value'], 'delay': 0}, {'key': ['change', 'm:target'], 'delay': 0.2}],
+     'plan': [{'do': 'reply', 'k': 0}, {'do': 'sleep', 'dt': 1.5}], 'local_disconnect': 0.2},
 ]
 
 
 def systematic(ctx, which):
     """every schedule with one forced switch (to each of three other threads) at every decision point of a fixed session"""
-    case = dict(SYSTEMATIC[which], kind='session', local_disconnect=None, schedule=[])
+    case = dict({'local_disconnect': None}, **SYSTEMATIC[which], kind='session', schedule=[])
     steps = run_session(case)['sched'].steps
     for step in range(1, steps + 1):
         for k in (1, 2, 3):
